@@ -30,6 +30,9 @@ pub struct Store {
     pub app: AppState,
     /// when set, the next async-capable `entries()` call answers LogTemporarilyUnavailable
     pub log_unavailable_once: std::cell::Cell<bool>,
+    /// when set, the next `snapshot()` call answers SnapshotTemporarilyUnavailable (the
+    /// application is still building the snapshot)
+    pub snap_busy_once: std::cell::Cell<bool>,
     pub fetch_ctx: std::cell::Cell<Option<GetEntriesContext>>,
 }
 
@@ -43,6 +46,7 @@ impl PartialEq for Store {
             && self.entries == o.entries
             && self.app == o.app
             && self.log_unavailable_once.get() == o.log_unavailable_once.get()
+            && self.snap_busy_once.get() == o.snap_busy_once.get()
     }
 }
 
@@ -60,6 +64,7 @@ impl Store {
                 sm: 0,
             },
             log_unavailable_once: std::cell::Cell::new(false),
+            snap_busy_once: std::cell::Cell::new(false),
             fetch_ctx: std::cell::Cell::new(None),
         }
     }
@@ -255,6 +260,10 @@ impl Storage for Store {
     }
 
     fn snapshot(&self, request_index: u64, _to: u64) -> Result<Snapshot> {
+        if self.snap_busy_once.get() {
+            self.snap_busy_once.set(false);
+            return Err(Error::Store(StorageError::SnapshotTemporarilyUnavailable));
+        }
         match self.make_snapshot() {
             Some(s) if s.get_metadata().index >= request_index && s.get_metadata().index > 0 => {
                 Ok(s)
